@@ -187,12 +187,12 @@ def channel_pairing(ck, agg, b):
     n = 0
     for cur in (0, 1, 2):
         n += 1
-        st = b.fresh({5: freq[cur]}, fields={"_curr_freq": Const(cur)})
+        st = b.fresh({5: freq[cur]}, fields={b.freq_index_field(): Const(cur)})
         for out in b.run(f_hop, [], st):
             if out.kind != "return":
                 agg.add("R18.4", f_hop, "hop_channel() does not raise", False, "raises %s" % out.value.exc)
                 continue
-            idx = const_of(norm(b.obj(out.state).fields.get("_curr_freq")))
+            idx = const_of(norm(b.obj(out.state).fields.get(b.freq_index_field())))
             ch = const_of(norm(out.state.extra["regs"].get(5)))
             agg.add("R18.4", f_hop, "after hop_channel() RF_CH is the frequency of the whitening channel index", idx in (0, 1, 2) and ch == freq[idx], "index %r, RF_CH %r" % (idx, ch))
             agg.add("R18.4", f_hop, "hop_channel() cycles 37 -> 38 -> 39 -> 37", idx == (cur + 1) % 3, "from index %d to %r" % (cur, idx))
@@ -201,12 +201,12 @@ def channel_pairing(ck, agg, b):
     for cur in (0, 1, 2):
         for val in (2, 26, 80, 5, 37, 125):
             n += 1
-            st = b.fresh({5: freq[cur]}, fields={"_curr_freq": Const(cur)})
+            st = b.fresh({5: freq[cur]}, fields={b.freq_index_field(): Const(cur)})
             for out in b.run(f_ch, [val], st):
                 if out.kind != "return":
                     agg.add("R18.4", f_ch, "channel setter does not raise", False, "raises %s" % out.value.exc)
                     continue
-                idx = const_of(norm(b.obj(out.state).fields.get("_curr_freq")))
+                idx = const_of(norm(b.obj(out.state).fields.get(b.freq_index_field())))
                 ch = const_of(norm(out.state.extra["regs"].get(5)))
                 agg.add("R18.4", f_ch, "after `channel = x` the whitening channel index still names the frequency the radio is tuned to", idx in (0, 1, 2) and ch == freq[idx],
                         "channel = %d with whitening index %d (BLE channel %d): RF_CH becomes %r but the index stays %r, so the packet is whitened for channel %s and sent on %s MHz" % (
@@ -217,14 +217,14 @@ def channel_pairing(ck, agg, b):
                 agg.add("R18.4", f_ch, "the channel shadow follows the register", ok, det)
     for cur in (0, 1, 2):
         n += 1
-        st = b.fresh(fields={"_curr_freq": Const(cur)})
+        st = b.fresh(fields={b.freq_index_field(): Const(cur)})
         for out in b.run(f_wh, [Bytes([(("param", "data"), Const(8))], "bytes")], st):
             wh = [e for e in out.trace if e.kind == "whitened"]
             coef = const_of(norm(wh[0].data[1][0])) if wh and wh[0].data[1] else None
             agg.add("R18.4", f_wh, "the whitening seed is (BLE channel) | 0x40 with channel = 37 + index", coef == ((TB.FIRST_ADV_CHANNEL + cur) | TB.WHITEN_SEED_BIT), "index %d: seed %r" % (cur, coef))
     # the constructor establishes the pairing
     for out in [o for o in b.init_outs if o.kind == "return"][:2]:
-        idx = const_of(norm(b.obj(out.state).fields.get("_curr_freq")))
+        idx = const_of(norm(b.obj(out.state).fields.get(b.freq_index_field())))
         ch = const_of(norm(out.state.extra["regs"].get(5)))
         agg.add("R18.4", b.cls.lookup("__init__")[1], "a new FakeBLE object is tuned to the channel its whitening index names", idx in (0, 1, 2) and ch == freq[idx], "index %r RF_CH %r" % (idx, ch))
     return n
